@@ -16,6 +16,7 @@
 #pragma once
 
 #include <unifex/bind_back.hpp>
+#include <unifex/continuations.hpp>
 #include <unifex/manual_lifetime.hpp>
 #include <unifex/std_concepts.hpp>
 #include <unifex/stream_concepts.hpp>
